@@ -402,6 +402,32 @@ def strip_q(tokens):
         t.pop()
     return t
 
+@rule("C09", "C09.m.a-node-ends-with-its-last-operand", floor=20)
+def c09m(F, R):
+    """the text of an instruction node runs from its mnemonic to its last operand: no operand form of a base instruction consumes the token that ends the line (a newline or a comment) into the node - the node's range is built from everything it consumed, so a form that reads the line end to find out that nothing follows (`jalr rs`) reports diagnostics on `jalr t1` plus the line break, or plus the whole comment"""
+    p, tm, pm = try_from_matches(F)
+    ctors = node_ctor_table(F, R)
+    n = 0
+    for k, arm in arm_table(tm):
+        if k in ("_", "Pseudo", "Ignore"):
+            continue
+        b = payload_binding(arm, k)
+        try:
+            outs = decode_arm(F, arm["body"], {b or "inst": ("name", "inst")})
+        except Unextractable:
+            continue   # reported by R3b
+        for toks, s_ in outs:
+            kind, ns = outcome_nodes(s_, ctors)
+            if kind not in ("ok", "two"):
+                continue
+            n += 1
+            if "$" in toks:
+                R.bad(f"{k}|{' '.join(t for t in toks if t != '$')}|line-end", f"the form `{' '.join(toks)}` of {k} consumes the token that ends the line (`$`) and builds the node from it: the range of the instruction runs over the line break or the trailing comment", loc(arm))
+            else:
+                R.ok(f"{k}|{' '.join(toks) or '-'}|{n}", trivial=True)
+    if n == 0:
+        raise Anchor("no decode path found")
+
 
 @rule("C08", "R3.pseudo-expansion", floor=32)
 @rule("C13", "C13.d.pseudo-expansion", floor=32)
